@@ -33,11 +33,24 @@ var (
 	}
 )
 
+// newDefaultOptions returns a fresh copy of the default options. Every writer
+// gets its own, the functional options write through the instance's pointer.
+func newDefaultOptions() *Options {
+	return &Options{
+		RenderOptions: &native.RenderOptions{
+			Indent: defaultOptions.RenderOptions.Indent,
+		},
+		SerializeOptions: &native.SerializeOptions{},
+		StoreOptions:     &storage.StoreOptions{},
+		formatOptions:    map[string]interface{}{},
+	}
+}
+
 func New(opts ...WriterOption) *Writer {
 	ensureSerializersInitialized()
 	w := &Writer{
 		Storage: fstore.NewFileSystem(),
-		Options: defaultOptions,
+		Options: newDefaultOptions(),
 	}
 
 	for _, opt := range opts {
@@ -148,7 +161,7 @@ func (w *Writer) WriteFile(bom *sbom.Document, path string) error {
 
 // Store persists a protobom document to disk using the default options
 func (w *Writer) Store(bom *sbom.Document) error {
-	return w.StoreWithOptions(bom, defaultOptions)
+	return w.StoreWithOptions(bom, w.Options)
 }
 
 // StoreWithOptions stores a protobom document using the configured storage
